@@ -1,0 +1,38 @@
+//go:build verif
+
+package include
+
+// Contracts for the govc verification-condition generator (/verif/DESIGN.md section 3.4).
+// This file is compiled only with the build tag "verif"; every contract line starts with //@.
+
+//@ pure (*Loader).getLimits IsGlobPattern
+
+//@ trusted Parse
+//@   ensures result0 != nil && fresh(result0)
+
+//@ trusted ResolvePathSafe
+//@   effects none
+
+//@ trusted (*Loader).expandGlob
+//@   ensures len(result0) >= 0
+
+//@ func (*Loader).loadWithContent
+//@   props C10 C11
+//@   requires l != nil && l.cache != nil && visited != nil && !visited[path] && visited != l.cache
+//@   ensures [C10:stack] forall p string :: visited[p] == old(visited[p])
+//@   ensures [grow_only] forall p string :: old(visited[p]) ==> visited[p]
+//@   modifies visited[*], l.cache[*]
+//@   loop 1 invariant 0 - 1 <= rangeindex && rangeindex <= len(parseErrs) - 1 && journal != nil && (forall p string :: visited[p] == old(visited[p]))
+//@   loop 1 decreases len(parseErrs) - rangeindex
+//@   loop 2 invariant 0 - 1 <= rangeindex && rangeindex <= len(journal.Includes) - 1 && journal != nil && visited[path] && (forall p string :: old(visited[p]) ==> visited[p]) && result != nil && result.Files != nil && fresh(result) && fresh(result.Files)
+//@   loop 2 decreases len(journal.Includes) - rangeindex
+//@   loop 3 invariant 0 - 1 <= rangeindex && rangeindex <= len(matches) - 1 && journal != nil && visited[path] && (forall p string :: old(visited[p]) ==> visited[p]) && result != nil && result.Files != nil && fresh(result) && fresh(result.Files)
+//@   loop 3 decreases len(matches) - rangeindex
+
+//@ func (*Loader).loadSingleInclude
+//@   props C10 C11
+//@   requires l != nil && l.cache != nil && visited != nil && result != nil && result.Files != nil && visited != l.cache && result.Files != l.cache && result.Files != visited
+//@   ensures [cycle_no_effect] old(visited[includePath]) ==> (forall p string :: has(result.Files, p) <==> old(has(result.Files, p)))
+//@   ensures [C10:stack] forall p string :: visited[p] == old(visited[p])
+//@   ensures [grow_only] forall p string :: old(visited[p]) ==> visited[p]
+//@   modifies visited[*], result.Files[*], result.FileOrder, l.cache[*]
